@@ -1,8 +1,95 @@
 import XmppModel.Prelude.Hex
-/-! Driver module for C11: `handle args` answers one protocol line (fields after the
-property id); `none` means the line is not understood (`!bad-op`). -/
+import XmppModel.Model.Jid
+/-! Driver for C11 (line protocol: see harness/c11/c11.go).  Byte strings are hex (`-`
+empty); the results of the external normalisers on the inputs of the line are passed by the
+harness as oracle fields (`!` = the library returned an error). -/
 namespace XmppModel.Driver.C11
+open XmppModel XmppModel.Jid
 
-def handle (_args : List String) : Option String := none
+/-- an oracle value: `!` (error) or hex bytes -/
+def pOracle (s : String) : Option (Option Bytes) :=
+  if s == "!" then some none else (hexDecode s).map some
+
+/-- the `Norm` that answers exactly the queries the harness answered -/
+def mkNorm (l : Bytes) (nl : Option Bytes) (r : Bytes) (nr : Option Bytes)
+    (d : Bytes) (ip6 ip4 : Bool) (idna idna2 : Option Bytes) : Norm where
+  nL := fun x => if x = l then nl else none
+  nR := fun x => if x = r then nr else none
+  idna := fun x => if x = trimDot d then idna else if some x = idna then idna2 else none
+  ip6 := fun x => x = d ∧ ip6
+  ip4 := fun x => x = d ∧ ip4
+
+def showJid (j : Jid) : String := s!"{hexEncode j.data} {j.ll} {j.dl}"
+
+def showRes : Except Err Jid → String
+  | .ok j => "ok " ++ showJid j
+  | .error _ => "err"
+
+def pJid (data ll dl : String) : Option Jid := do
+  let d ← hexDecode data; let a ← ll.toNat?; let b ← dl.toNat?
+  if a + b ≤ d.length then pure ⟨d, a, b⟩ else none
+
+def handle (args : List String) : Option String :=
+  match args with
+  | ["split", safe, s] => do
+    let sf ← parseBool safe; let b ← hexDecode s
+    match split sf b with
+    | .ok (l, d, r) => pure s!"ok {hexEncode l} {hexEncode d} {hexEncode r}"
+    | .error _ => pure "err"
+  | ["new", l, d, r, nl, nr, ip6, ip4, idna, idna2] => do
+    let l ← hexDecode l; let d ← hexDecode d; let r ← hexDecode r
+    let N := mkNorm l (← pOracle nl) r (← pOracle nr) d (← parseBool ip6) (← parseBool ip4) (← pOracle idna) (← pOracle idna2)
+    pure (showRes (new N l d r))
+  | ["parse", s, nl, nr, ip6, ip4, idna, idna2] => do
+    let s ← hexDecode s
+    let nl ← pOracle nl; let nr ← pOracle nr; let i6 ← parseBool ip6; let i4 ← parseBool ip4
+    let idna ← pOracle idna; let idna2 ← pOracle idna2
+    match split true s with
+    | .ok (l, d, r) => pure (showRes (parse (mkNorm l nl r nr d i6 i4 idna idna2) s))
+    | .error _ => pure "err"
+  | ["punsafe", s] => do
+    let s ← hexDecode s
+    let (j, ok) := parseUnsafe s
+    pure s!"{showJid j} {showBool ok}"
+  | ["str", data, ll, dl] => do
+    let j ← pJid data ll dl
+    pure (hexEncode j.toString)
+  | ["parts", data, ll, dl] => do
+    let j ← pJid data ll dl
+    pure s!"{hexEncode j.localpart} {hexEncode j.domainpart} {hexEncode j.resourcepart} {showJid j.bare} {showJid j.domain}"
+  | ["eq", d1, l1, m1, d2, l2, m2] => do
+    let a ← pJid d1 l1 m1; let b ← pJid d2 l2 m2
+    pure (showBool (a.equal b))
+  | ["withl", data, ll, dl, l, nl] => do
+    let j ← pJid data ll dl; let l ← hexDecode l
+    pure (showRes (withLocal (mkNorm l (← pOracle nl) [] none [] false false none none) j l))
+  | ["withd", data, ll, dl, d, ip6, ip4, idna, idna2] => do
+    let j ← pJid data ll dl; let d ← hexDecode d
+    pure (showRes (withDomain (mkNorm [] none [] none d (← parseBool ip6) (← parseBool ip4) (← pOracle idna) (← pOracle idna2)) j d))
+  | ["withr", data, ll, dl, r, nr] => do
+    let j ← pJid data ll dl; let r ← hexDecode r
+    pure (showRes (withResource (mkNorm [] none r (← pOracle nr) [] false false none none) j r))
+  | ["utf8", s] => do
+    let s ← hexDecode s
+    pure (showBool (validUtf8 s))
+  | ["unattr", v, nl, nr, ip6, ip4, idna, idna2] => do
+    let v ← hexDecode v
+    let nl ← pOracle nl; let nr ← pOracle nr; let i6 ← parseBool ip6; let i4 ← parseBool ip4
+    let idna ← pOracle idna; let idna2 ← pOracle idna2
+    let N := match split true v with
+      | .ok (l, d, r) => mkNorm l nl r nr d i6 i4 idna idna2
+      | .error _ => mkNorm [] none [] none [] false false none none
+    let (j, ok) := unmarshalAttr N ⟨[0x7a], 0, 1⟩ v
+    pure s!"{showJid j} {showBool ok}"
+  | ["unelem", v, nl, nr, ip6, ip4, idna, idna2] => do
+    let v ← hexDecode v
+    let nl ← pOracle nl; let nr ← pOracle nr; let i6 ← parseBool ip6; let i4 ← parseBool ip4
+    let idna ← pOracle idna; let idna2 ← pOracle idna2
+    let N := match split true v with
+      | .ok (l, d, r) => mkNorm l nl r nr d i6 i4 idna idna2
+      | .error _ => mkNorm [] none [] none [] false false none none
+    let (j, ok) := unmarshalElem N ⟨[0x7a], 0, 1⟩ v
+    pure s!"{showJid j} {showBool ok}"
+  | _ => none
 
 end XmppModel.Driver.C11
